@@ -320,7 +320,7 @@ pub fn main(args: &Args) -> i32 {
         }
         // failures that arise inside the run, from the world rather than from the hook
         let factory = Factory::new();
-        for kind in ["fatal-in-process", "retry-in-process", "fatal-in-process/late"] {
+        for kind in ["fatal-in-process", "retry-in-process", "fatal-in-process/late", "fatal-storing-ta"] {
             c33_world(&mut rep, &factory, kind);
         }
     }
@@ -418,6 +418,8 @@ fn c33_one(rep: &mut Report, outs: &[String]) {
 ///                      (quick, no update) one: "encountered new publication point", retry
 ///   .../late           as fatal-in-process, with one validation thread so that ca2 has been
 ///                      processed completely when ca3 fails
+///   fatal-storing-ta   the directory for the stored trust anchor certificate has become a file:
+///                      storing the freshly downloaded certificate is a fatal I/O error
 fn c33_world(rep: &mut Report, factory: &Factory, kind: &str) {
     use super::storecrash::{find_files, world};
     let bed = TestBed::new();
@@ -459,6 +461,13 @@ fn c33_world(rep: &mut Report, factory: &Factory, kind: &str) {
     if files.len() != 1 { rep.divergence("C33", format!("{kind}: stored point of ca3 not found ({})", files.len())); return }
     let initial = kind.starts_with("retry");
     if initial { let _ = std::fs::remove_file(&files[0]); }
+    else if kind == "fatal-storing-ta" {
+        // the directory the downloaded trust anchor certificate is stored in is a file now: storing it is a fatal I/O error
+        let ta_dir = bed.cache.join("stored").join("ta").join("rsync").join("r1.verif.test");
+        if !ta_dir.is_dir() { rep.divergence("C33", format!("{kind}: {} is not a directory", ta_dir.display())); return }
+        let _ = std::fs::remove_dir_all(&ta_dir);
+        let _ = std::fs::write(&ta_dir, b"not a directory");
+    }
     else {
         let data = std::fs::read(&files[0]).unwrap_or_default();
         let _ = std::fs::write(&files[0], &data[..data.len().min(300)]);
@@ -499,6 +508,7 @@ fn c33_world(rep: &mut Report, factory: &Factory, kind: &str) {
     }
     // unblock the long-poll: repair the store and run again
     let _ = std::fs::remove_file(&files[0]);
+    let _ = std::fs::remove_file(bed.cache.join("stored").join("ta").join("rsync").join("r1.verif.test"));
     let _ = fx.process_once(&none, false);
     trace_end();
     rep.trace("C33");
